@@ -7,6 +7,7 @@
 package pfcpiface
 
 import (
+	"os"
 	"encoding/json"
 	"fmt"
 	"strings"
@@ -19,6 +20,9 @@ func c11Run(sc c11Scenario, serial map[string]string, prefix []int, sigs []strin
 	s := vsched.New(prefix, 200000)
 	s.PrefixSigs = sigs
 	s.ChargeFreeSwitch = true // a non-canonical switch at a blocking point counts as a deviation too (lock hand-offs are frequent)
+	// no timer belongs to the scenario: the only one is the bess plug-in's 1 s join time-out, and a "timer lands first"
+	// deviation there is datapath slowness, which is not injected (DESIGN.md section 11)
+	s.NoClockDeviation = true
 	res := c11Result{Causes: make([]string, len(sc.Streams))}
 	var in *vInst
 	vYieldHook = vsched.Yield
@@ -144,6 +148,12 @@ func TestVerifC11(t *testing.T) {
 		sr, v := c11Run(sc, c11Serial(sc), c.Choices, c.Sigs)
 		if sr.Diverged != "" {
 			panic("VERIF-INFRA: the recorded schedule does not fit this tree: " + sr.Diverged)
+		}
+		if os.Getenv("VERIF_SCHEDLOG") != "" {
+			for _, l := range sr.Log {
+				fmt.Println("SCHED", l)
+			}
+			fmt.Println("VERDICT", v.Class, v.Desc, v.Outcome)
 		}
 		if v.Class != "" {
 			res.finding("c11:"+v.Class+":"+sc.Name, v.Desc, c)
